@@ -773,3 +773,14 @@ seeded('seeded-RFC19-verdict-cache-keyed-on-address', ['C19', 'C20'], ['C20.vali
 seeded('seeded-RFC20-last-goal-sample-counts-as-satisfied', ['C20'], ['C20.goal'])
 CASES.append({'name': 'rfc18-buffer-reset-at-query-start', 'props': ['C18'], 'expect': [], 'patch': '/verif/seeded/RFC18/patch.diff',
               'edits': [('oxmpl/src/geometric/planners/prm.rs', '        self.visited.resize(self.roadmap.len(), false);', '        self.visited.clear();\n        self.visited.resize(self.roadmap.len(), false);')]})
+
+# ---------------------------------------------------------------- benign rounds 39-42 (on the base 1d82933)
+for _k in (1, 2, 3, 4, 5):
+    benign_patch('ben39-r%d' % _k, ALL)                         # PRM: connectable_milestones iterator, all() motion check + motion_steps, breadth_first_search -> SearchTree, successors path + Node accessors, require_setup / add_milestone
+    benign_patch('ben41-r%d' % _k, ALL)                         # SE2/SE3/Any: component_as, split bounds first, concrete_ref / DynRng, wrap_to_pi + normalise helpers, direct inner calls + get_rotation_weight
+    benign_patch('ben42-r%d' % _k, ['C19', 'C20', 'C08'])       # oxmpl-js: method() helper + macro-generated checker impls, number_property, slice_to_js_array / index_or, match on (planner, pd) + from_planner_result, has_property / boxed_from_js
+CASES.append({'name': 'ben41r1-se2-components-swapped', 'props': ['C13'], 'expect': ['C13.se'], 'patch': '/verif/selftest/benign/ben41-r1.diff',
+              'edits': [('oxmpl/src/base/states/se2_state.rs', '            Box::new(RealVectorState::new(vec![x, y])),\n            Box::new(SO2State::new(yaw)),',
+                         '            Box::new(SO2State::new(yaw)),\n            Box::new(RealVectorState::new(vec![x, y])),')]})
+CASES.append({'name': 'ben39r5-back-edges-skip-first', 'props': ['C18'], 'expect': ['C18.sym'], 'patch': '/verif/selftest/benign/ben39-r5.diff',
+              'edits': [('oxmpl/src/geometric/planners/prm.rs', '        for &i in &neighbours {\n            roadmap[i].edges.push(new_node_idx);', '        for &i in neighbours.iter().skip(1) {\n            roadmap[i].edges.push(new_node_idx);')]})
